@@ -53,6 +53,9 @@ func mix(x uint64) uint64 {
 
 func hashStr(s string) uint64 { h := fnv.New64a(); h.Write([]byte(s)); return h.Sum64() }
 
+// HashStr exposes the fingerprint hash.
+func HashStr(s string) uint64 { return hashStr(s) }
+
 // CaseSeed derives the seed of case i of a named stream from the run seed.
 func (c *Ctx) CaseSeed(stream string, i int) int64 {
 	return int64(mix(mix(c.Seed^hashStr(c.Prop+"/"+stream)) + uint64(i)*0x9e3779b97f4a7c15))
